@@ -31,7 +31,7 @@ func vGenString(r *vRand) ([]byte, string) {
 		}
 		return b, "ascii"
 	case 5, 6:
-		runes := []rune{'é', 'ß', '中', '文', '😀', 'a', '߿', 'ࠀ', '￿', '\U00010000', '\U0010ffff', 0}
+		runes := []rune{'é', 'ß', '中', '文', '😀', 'a', '߿', 'ࠀ', '￿', '\U00010000', '\U0010ffff', 0, '\ufffd', '\ufffd', '\ufffc', '\ufeff'}
 		s := ""
 		for i, n := 0, 1+r.Intn(12); i < n; i++ {
 			s += string(runes[r.Intn(len(runes))])
